@@ -320,6 +320,52 @@ def _propagate_function_aliases(parsed) -> None:
         ast.fix_missing_locations(tree)
 
 
+def _expand_partials(parsed) -> None:
+    """`_dumps = functools.partial(json.dumps, ensure_ascii=True, separators=(",", ":"))` ... `_dumps(x)`: a name bound once (module level or local)
+    to a partial application whose pre-bound arguments are constants / constant displays and which is only ever called is the call with those
+    arguments written out: `json.dumps(x, ensure_ascii=True, separators=(",", ":"))`."""
+    import copy as _cp
+
+    def const_like(e) -> bool:
+        if isinstance(e, ast.Constant):
+            return True
+        if isinstance(e, (ast.Tuple, ast.List)):
+            return all(const_like(x) for x in e.elts)
+        return False
+    for _name, _path, _src, tree, _k in parsed:
+        scopes = [tree] + [x for x in ast.walk(tree) if isinstance(x, (ast.FunctionDef, ast.AsyncFunctionDef))]
+        for sc in scopes:
+            for st in list(sc.body):
+                if not (isinstance(st, ast.Assign) and len(st.targets) == 1 and isinstance(st.targets[0], ast.Name) and isinstance(st.value, ast.Call)):
+                    continue
+                f = st.value.func
+                if not ((isinstance(f, ast.Name) and f.id == "partial") or (isinstance(f, ast.Attribute) and f.attr == "partial" and isinstance(f.value, ast.Name) and f.value.id == "functools")):
+                    continue
+                pc = st.value
+                if not pc.args or any(isinstance(a, ast.Starred) for a in pc.args) or any(k.arg is None for k in pc.keywords):
+                    continue
+                target = pc.args[0]
+                root = target
+                while isinstance(root, ast.Attribute):
+                    root = root.value
+                if not isinstance(root, ast.Name) or not all(const_like(a) for a in pc.args[1:]) or not all(const_like(k.value) for k in pc.keywords):
+                    continue
+                nm = st.targets[0].id
+                stores = [x for x in ast.walk(tree) if isinstance(x, ast.Name) and x.id == nm and isinstance(x.ctx, (ast.Store, ast.Del))]
+                uses = [x for x in ast.walk(tree) if isinstance(x, ast.Name) and x.id == nm and isinstance(x.ctx, ast.Load)]
+                calls = [x for x in ast.walk(tree) if isinstance(x, ast.Call) and isinstance(x.func, ast.Name) and x.func.id == nm]
+                if len(stores) != 1 or not uses or len(uses) != len(calls):
+                    continue
+                if any(any(k.arg is None or k.arg in {q.arg for q in pc.keywords} for k in c.keywords) or any(isinstance(a, ast.Starred) for a in c.args) for c in calls):
+                    continue
+                for c in calls:
+                    c.func = ast.copy_location(_cp.deepcopy(target), c.func)
+                    c.args = [_cp.deepcopy(a) for a in pc.args[1:]] + c.args
+                    c.keywords = c.keywords + [_cp.deepcopy(k) for k in pc.keywords]
+                sc.body.remove(st)
+        ast.fix_missing_locations(tree)
+
+
 def _same_import(entry, modparts, name, pkg_parts) -> bool:
     st, a = entry
     if a.name != name or a.asname not in (None, name) or st.level == 0:
@@ -371,6 +417,7 @@ class Program:
             parsed.append((name, path, src, tree, is_pkg))
         _unalias_module_imports(parsed)
         _propagate_function_aliases(parsed)
+        _expand_partials(parsed)
         # method names defined in more than one class anywhere in the package cannot be resolved through `self` by the inliner
         counts: Dict[str, int] = {}
         for _n, _p, _s, tree, _k in parsed:
